@@ -3,8 +3,19 @@
    Layers: F = documented format (Format.v), S = abstract spec (Spec/SpecStep), I = model of the Rust (World.step'). *)
 From Coq Require Import List NArith Bool Arith Sorted.
 From Coq Require Import Strings.Byte.
-Require Import BS.Bytes BS.Common BS.Api BS.Layout BS.Format BS.FormatFacts.
+Require Import BS.Bytes BS.Common BS.Api BS.Layout BS.Format BS.FormatFacts BS.Spec BS.SpecStep.
+Require Import BS.FS BS.FSFacts BS.Meta BS.MetaFacts BS.Header BS.Reader BS.ReaderFacts BS.Index BS.Data BS.DataFacts BS.Seek BS.Series BS.SeriesFacts.
 Import ListNotations.
 
-(* theorems for this property are added as the development grows; until then the property is
-   decided by the judge (Layer S/F, extracted) on the implementation and by the correspondence check *)
+(* (I) under the representation invariant the accessors report the contents *)
+Theorem C12_len : forall fs s p hdr ihdr l, RepH fs s p hdr ihdr l -> data_len_lines (s_data s) = Ok (len l).
+Proof. exact len_ok. Qed.
+Print Assumptions C12_len.
+Theorem C12_range : forall fs s p hdr ihdr l, RepH fs s p hdr ihdr l -> s_range s = first_last l.
+Proof. exact range_ok. Qed.
+Print Assumptions C12_range.
+Theorem C12_payload_size : forall fs s p hdr ihdr l, RepH fs s p hdr ihdr l -> d_p (s_data s) = p.
+Proof. exact payload_size_ok. Qed.
+Print Assumptions C12_payload_size.
+(* the invariant is preserved by appends (props/C03.v). partial: last_line, and re-establishing the
+   invariant on open / repair / rebuild (C04-C06), are not proved yet. *)
